@@ -1,6 +1,7 @@
 package main
 
 import (
+	"sync"
 	"crypto/rsa"
 	"fmt"
 	"math/big"
@@ -149,6 +150,8 @@ func init() {
 		g := lint.GlobalRegistry()
 		accepted, rejected := 0, 0
 		seen := map[string]bool{}
+		type replayKey struct{ der []byte; cfg, sts, why string }
+		var replays []replayKey
 		for ki, k := range keys {
 			// the model's Fermat loop costs one 2048-bit integer square root per round inside Coq: keep the default
 			// 100 rounds on a subset and configure 2 rounds elsewhere (the Fermat-specific keys carry their own rounds)
@@ -190,6 +193,7 @@ func init() {
 				sts[i] = fmt.Sprint(int(r.Status))
 				obs[n] = int(r.Status)
 			}
+			replays = append(replays, replayKey{der, cfgText, joinSemi(sts), k.why})
 			pk := c.PublicKey.(*rsa.PublicKey)
 			term := fmt.Sprintf("(%s, %s, %s, [%s])", cqZs(pk.N.String()), cqZ(int64(pk.E)), cqZ(int64(rounds)), joinSemi(sts))
 			if !seen[term] {
@@ -207,6 +211,71 @@ func init() {
 						out.Violate("C16|fermat-factors-wrong", "reported factorisation does not multiply back to the modulus", hexs(der), nil, r.Details)
 					}
 				}
+			}
+		}
+		// the verdict is a function of the key alone: the same keys linted from several goroutines at once (each on its
+		// own parsed certificate, as bulk users do), in another order, give the same verdicts
+		{
+			var wg sync.WaitGroup
+			var mu sync.Mutex
+			var problems []replayKey
+			var got []string
+			reps := 3
+			if tier() == "thorough" {
+				reps = 10
+			}
+			for w := 0; w < 8; w++ {
+				wg.Add(1)
+				go func(id int) {
+					defer wg.Done()
+					lr := NewRng(seedFromEnv(), fmt.Sprintf("c16-par-%d", id))
+					for rep := 0; rep < reps; rep++ {
+						order := make([]int, len(replays))
+						for i := range order {
+							order[i] = i
+						}
+						lr.Shuffle(len(order), func(i, j int) { order[i], order[j] = order[j], order[i] })
+						for _, i := range order {
+							rk := replays[i]
+							c, err := safeParseCert(rk.der)
+							if err != nil {
+								continue
+							}
+							cfg, err := lint.NewConfigFromString(rk.cfg)
+							if err != nil {
+								continue
+							}
+							fr, err := g.Filter(lint.FilterOptions{IncludeNames: rsaLints})
+							if err != nil {
+								continue
+							}
+							fr.SetConfiguration(cfg)
+							rs := zlint.LintCertificateEx(c, fr)
+							sts := make([]string, len(rsaLints))
+							for j, n := range rsaLints {
+								if r := rs.Results[n]; r != nil {
+									sts[j] = fmt.Sprint(int(r.Status))
+								} else {
+									sts[j] = "0"
+								}
+							}
+							if joinSemi(sts) != rk.sts {
+								mu.Lock()
+								if len(problems) < 5 {
+									problems = append(problems, rk)
+									got = append(got, joinSemi(sts))
+								}
+								mu.Unlock()
+							}
+						}
+					}
+				}(w)
+			}
+			wg.Wait()
+			out.Stats["concurrent_relints"] = 8 * reps * len(replays)
+			for i, rk := range problems {
+				out.Violate("C16|verdict-differs-under-concurrency", fmt.Sprintf("key (%s): statuses [%s] when linted alone, [%s] when linted while other goroutines lint other keys", rk.why, rk.sts, got[i]),
+					map[string]interface{}{"der": hexs(rk.der), "config": rk.cfg, "lints": rsaLints}, rk.sts, got[i])
 			}
 		}
 		out.Stats["keys"] = len(keys)
